@@ -39,6 +39,7 @@ structure SBase where
   ref : String := ""                -- "" = no $ref
   sid : String := ""                -- `id`
   readOnly : Bool := false
+  exampleV : Option JVal := none    -- Swagger `example` (judged by spec validation only: C09)
   deriving Inhabited
 
 inductive Schema where
